@@ -33,6 +33,8 @@ TUPLE = {'EVar': 'EVar', 'SVar': 'SVar', 'Symbol': 'Sym'}
 
 
 class Tr:
+    src = ''        # lib.rs text (for private helper functions, which are expanded at their call sites)
+
     def __init__(self):
         self.n = 0
         self.opts = set()      # locals of Rust type Option<Rc<Pattern>>
@@ -106,6 +108,30 @@ class Tr:
         e = e.strip()
         if e == 'None':
             return 'IUnchanged'
+        m = re.fullmatch(r'(\w+)\(&?(\w+), &?(\w+), vars, plugs\)\.map\(\|\((\w+), (\w+)\)\| (.*)\)', e)
+        if m and m.group(1) != 'instantiate_internal':
+            h, a1, a2, x, y, body = m.groups()
+            hm = re.search(r'\nfn ' + h + r'\(', self.src)
+            if not hm:
+                fail('unknown helper ' + h)
+            ht = norm(find_fn(self.src, h))
+            sig = re.fullmatch(r'fn ' + h + r'\((\w+): &Rc<Pattern>, (\w+): &Rc<Pattern>, vars: &\[Id\], plugs: &\[Rc<Pattern>\]\) '
+                               r'-> Option<\(Rc<Pattern>, Rc<Pattern>\)> \{ (.*) \}', ht)
+            if not sig:
+                fail(f'helper {h} has an unexpected signature: ' + ht[:160])
+            p1, p2, hb = sig.groups()
+            for old, new in ((p1, a1), (p2, a2)):
+                hb = re.sub(r'\b' + old + r'\b', new, hb)
+            hs = split_stmts(hb)
+            last = hs[-1].strip().rstrip(';').strip()
+            if last.startswith('return '):
+                last = last[len('return '):]
+            tm = re.fullmatch(r'Some\(\((.*)\)\)', last)
+            if not tm or len(split_top(tm.group(1))) != 2:
+                fail(f'helper {h} does not end with Some((a, b)): ' + last[:100])
+            e1, e2 = split_top(tm.group(1))
+            hs = hs[:-1] + [f'let {x} = {e1}', f'let {y} = {e2}', f'Some({body})']
+            return self.block(hs, None)
         m = re.fullmatch(r'instantiate_internal\(&?(\w+), vars, plugs\)\.map\(\|(\w+)\| (.*)\)', e)
         if m:
             y, x, body = m.groups()
@@ -268,8 +294,11 @@ class Tr:
                 return f'if {self.cond(c)} then {t1} else {t2}'
             if tail:
                 fail('text after if block: ' + tail[:80])
-            # no else: either a guard (panic) or re-assignments of option locals
+            # no else: an early return, a guard (panic) or re-assignments of option locals
             ts = split_stmts(then)
+            mret = re.fullmatch(r'return (.*?);?', ts[0].strip()) if len(ts) == 1 else None
+            if mret:
+                return f'if {self.cond(c)} then {self.result(mret.group(1))} else {after()}'
             if len(ts) == 1 and self.is_panic(ts[0]):
                 return f'if {self.cond(c)} then IPanic else {after()}'
             assigns = []
@@ -331,6 +360,7 @@ def generate(repo):
     m = re.fullmatch(r'fn instantiate_internal\(p: &Rc<Pattern>, vars: &\[Id\], plugs: &\[Rc<Pattern>\]\) -> Option<Rc<Pattern>> \{ match p\.as_ref\(\) \{ (.*) \} \}', fn)
     if not m:
         fail('unexpected signature / body shape of instantiate_internal: ' + fn[:200])
+    Tr.src = src
     inplace = norm(find_fn(src, 'instantiate_in_place'))
     mi = re.fullmatch(r'fn instantiate_in_place\(p: &mut Rc<Pattern>, vars: &\[Id\], plugs: &\[Rc<Pattern>\]\) \{ if let Some\((\w+)\) = instantiate_internal\(p, vars, plugs\) '
                       r'\{ \*p = (\w+);? \} \}', inplace)
